@@ -4,6 +4,7 @@
 -/
 import VK.Model.Codec
 import VK.Model.Transfers
+import VK.Model.Clean
 open Lean VK VK.Codec
 
 def getSTVCfg (j : Json) : D STVCfg := do
@@ -227,6 +228,17 @@ def handle (j : Json) : D Json := do
     let q ← getInt (← field j "threshold")
     let keep ← getList (getPair getRanking getNat) (fieldD j "keep" .null)
     pure (jOutcome jBallots (randomTransfer w fpv bs q keep))
+  | "remove_empty" => do
+    let p ← getProfile (← field j "profile")
+    let keep ← getBool (fieldD j "keep" (.bool false))
+    pure (Json.mkObj [("ok", jProfile (removeEmptyBallots p keep))])
+  | "deduplicate" => do
+    let p ← getProfile (← field j "profile")
+    pure (jOutcome jProfile (deduplicateProfiles p))
+  | "remove_noncands" => do
+    let p ← getProfile (← field j "profile")
+    let nc ← getCands (← field j "noncands")
+    pure (jOutcome jProfile (removeNoncands p nc))
   | "pairwise" => do
     let p ← getProfile (← field j "profile")
     let d := pairwiseDict p
